@@ -225,6 +225,8 @@ fn build_cases(tape: &[u8], which: Which, n_inputs_scale: usize) -> Vec<Result<G
         Which::C01 | Which::C04 | Which::C05 | Which::C07 | Which::C08 if t.chance(80) => gen::gen_cfg(&mut t).0,
         Which::C16 => gen::gen_recovery(&mut t),
         Which::C17 if t.chance(70) => gen::gen_recovery(&mut t),
+        // `expected` of the first error in grammars with `!` (table-driven only)
+        Which::C05 if t.chance(50) => gen::gen_recovery(&mut t),
         _ => gen::gen_full(&mut t, &opts),
     };
     match which {
@@ -1171,6 +1173,10 @@ fn evaluate_cases(
                     }
                 }
                 Which::C04 | Which::C05 => {
+                    // C05 also covers grammars with `!`: there only the FIRST error of an
+                    // input can be judged (its consumed prefix is a plain input prefix)
+                    let recovery_case = which == Which::C05 && c.core.error_term.is_some() && c.core.is_reduced_from(start);
+                    let reduced = reduced || recovery_case;
                     if m.member || !reduced {
                         if count && !m.member {
                             ck.skip("grammar not reduced from this start symbol or uses `!` (outside the precondition)");
@@ -1228,7 +1234,26 @@ fn evaluate_cases(
                         if variant != "UnrecognizedToken" && variant != "UnrecognizedEof" {
                             continue;
                         }
-                        let (vc, _eof) = &m.next[consumed];
+                        if recovery_case {
+                            // is the reported error the first one (at the shortest non-viable prefix)?
+                            let first = match m.dead_at {
+                                Some(k) => variant == "UnrecognizedToken" && *a == format!("@{}", toks[k - 1].lo) && *b == tok_render(&toks[k - 1]),
+                                None => variant == "UnrecognizedEof",
+                            };
+                            if !first {
+                                if count {
+                                    ck.skip("recovery grammar: the returned error is not the first error of the input (its consumed prefix contains error nodes)");
+                                }
+                                continue;
+                            }
+                            if count {
+                                ck.class("c05_first_error_in_recovery_grammar");
+                            }
+                        }
+                        let (vc_all, _eof) = &m.next[consumed];
+                        // the error pseudo-terminal is not an input token: never a continuation
+                        let vc_owned: BTreeSet<usize> = vc_all.iter().copied().filter(|t| Some(*t) != c.core.error_term).collect();
+                        let vc = &vc_owned;
                         let nterm = c.core.term_names.len();
                         if count && consumed >= 1 && vc.len() < nterm {
                             ck.nontrivial(&key);
